@@ -577,6 +577,7 @@ class DecimalRange(Range):
                 upper = None
                 ellipsis_found = False
                 after_hyphen = False
+                range_item = None
                 next_token = next(tokens)
                 while not _tools.is_eof_token(next_token) and not _tools.is_comma_token(next_token):
                     next_type = next_token[0]
